@@ -1,8 +1,282 @@
+import Std.Data.HashMap
 import GraafVerif.Driver.Common
-/-! Driver handlers for property C02 (ops the harness module `ops/c02.rs` emits). -/
-namespace GraafVerif.Driver.H02
-open GraafVerif GraafVerif.Driver
+import GraafVerif.Driver.ReprDesc
+import GraafVerif.Model.Query
+import GraafVerif.Spec.Query
+/-!
+Driver handlers for property C02 (ops of `harness/src/ops/c02.rs`):
+`q_global q_degseq q_vertex q_pairs q_walks q_remove`.
 
-def handlers : List (String × Handler) := []
+Per case: (a) the model of the representation named in the description recomputes every
+output (MISMATCH on disagreement); (b) the ORACLE evaluates the textbook definitions of
+`Spec/Query.lean` on the implementation's own observation `[order [vertices] [arcs]]` (first
+output of every op) and compares them with what the implementation answered (PROPFAIL).
+For ids outside `V` the oracle only speaks about the queries documented as total
+(`has_arc has_edge has_walk arc_weight remove_arc`); the last output `unchanged` must be `true`.
+-/
+namespace GraafVerif.Driver.H02
+open GraafVerif GraafVerif.Driver GraafVerif.Repr GraafVerif.Query
+
+/-! ## encodings -/
+def panicV : V := .a "panic"
+def oNat : Option Nat → V | none => panicV | some n => V.ofNat n
+def oBool : Option Bool → V | none => panicV | some b => V.ofBool b
+def oNats : Option (List Nat) → V | none => panicV | some l => V.ofNats l
+def oPairs : Option (List (Nat × Nat)) → V | none => panicV | some l => V.ofPairs l
+def b01 (b : Bool) : V := .i (if b then 1 else 0)
+def wPairs (l : List (Nat × Int)) : V := .l (l.map (fun p => .l [V.ofNat p.1, .i p.2]))
+def oInt : Option Int → V | none => .a "none" | some w => .i w
+
+/-! ## model instance of a description -/
+structure Inst where
+  core : Core
+  weighted : Bool
+  arcWeight : Nat → Nat → Option Int
+  outNW : Nat → Option (List (Nat × Int))
+  obs : V
+  /-- `remove_arc(u, v)` on a clone: (returned value, clone still equal to the original) -/
+  remove : Nat → Nat → Bool × Bool
+
+def mkInst (d : GDesc) : Option Inst :=
+  match d.repr with
+  | "al" => (buildAL d).map fun g =>
+    ⟨AL.core g, false, fun _ _ => none, fun _ => none, obsAL g, fun u v => let r := g.removeArc u v; (r.2, r.1 == g)⟩
+  | "am" => (buildAM d).map fun g =>
+    ⟨AM.core g, false, fun _ _ => none, fun _ => none, obsAM g, fun u v => let r := g.removeArc u v; (r.2, r.1 == g)⟩
+  | "mx" => (buildMX d).map fun g =>
+    ⟨MX.core g, false, fun _ _ => none, fun _ => none, obsMX g, fun u v => let r := g.removeArc u v; (r.2, r.1 == g)⟩
+  | "el" => (buildEL d).map fun g =>
+    ⟨EL.core g, false, fun _ _ => none, fun _ => none, obsEL g, fun u v => let r := g.removeArc u v; (r.2, r.1 == g)⟩
+  | "wu" | "wi" => (buildW d).map fun g =>
+    ⟨WL.core g, true, g.arcWeight, WL.outNeighborsWeighted g, obsWL g, fun u v => let r := g.removeArc u v; (r.2, r.1 == g)⟩
+  | _ => none
+
+/-! ## the oracle's digraph: the implementation's own observation -/
+structure Obs where
+  G : Digraph
+  nverts : Nat
+  narcs : Nat
+  weighted : Bool
+
+def parseObs (o : V) : Option Obs :=
+  match o with
+  | .l [_, vs, .l arcs] => do
+    let verts ← V.listOf? V.nat? vs
+    let triples ← arcs.mapM (fun a =>
+      match a with
+      | .l [u, v] => do pure ((← V.nat? u), (← V.nat? v), (none : Option Int))
+      | .l [u, v, w] => do pure ((← V.nat? u), (← V.nat? v), some (← V.int? w))
+      | _ => none)
+    let m : Std.HashMap (Nat × Nat) Int :=
+      triples.foldl (fun m a => m.insert (a.1, a.2.1) (a.2.2.getD 1)) {}
+    let weighted := triples.any (fun a => a.2.2.isSome)
+    pure ⟨⟨verts, fun u v => m.contains (u, v), fun u v => m[(u, v)]?⟩, verts.length, triples.length, weighted⟩
+  | _ => none
+
+def firstDiff (xs ys : List V) (i : Nat := 0) : Option (Nat × V × V) :=
+  match xs, ys with
+  | [], [] => none
+  | x :: xs, y :: ys => if x == y then firstDiff xs ys (i + 1) else some (i, x, y)
+  | x :: _, [] => some (i, x, .a "missing")
+  | [], y :: _ => some (i, .a "missing", y)
+
+def short (v : V) : String :=
+  let s := toString v
+  if s.length > 160 then (s.take 160).toString ++ "…" else s
+
+/-- Compare observed outputs with what the definitions demand (`want`, same shape). -/
+def oracleVerdict (names : List String) (observed want : List V) : Option String :=
+  match firstDiff observed want with
+  | none => none
+  | some (i, o, w) => some s!"{names[i]?.getD (toString i)}: implementation {short o} definition-from-own-arcs {short w}"
+
+def densTag (n m : Nat) : String :=
+  if m = 0 then "arcs=0" else if m = n * (n - 1) then "arcs=all" else if 2 * m ≥ n * (n - 1) then "dense" else "sparse"
+
+def commonTags (d : GDesc) (ob : Obs) : List String :=
+  let sparseIds := d.repr == "am" && d.verts != List.range d.order
+  [s!"repr={d.repr}", sizeTag d.order, densTag ob.nverts ob.narcs] ++ (if sparseIds then ["sparse-ids"] else [])
+
+/-! ## parts: each op is `obs :: part outputs ++ [unchanged]`; `q_all` concatenates all parts -/
+structure Part where
+  names : List String
+  model : List V
+  want : List V
+  tags : List String := []
+
+def partGlobal (m : Inst) (ob : Obs) : Part :=
+  let G := ob.G
+  let q := m.core
+  { names := ["size", "sinks", "sources", "indegree_sequence", "outdegree_sequence", "semidegree_sequence",
+              "max_degree", "min_degree", "max_indegree", "min_indegree", "max_outdegree", "min_outdegree"]
+    want := [V.ofNat (Spec.size G), V.ofNats (Spec.sinks G), V.ofNats (Spec.sources G),
+       V.ofNats (Spec.indegreeSequence G), V.ofNats (Spec.outdegreeSequence G), V.ofPairs (Spec.semidegreeSequence G),
+       V.ofNat (Spec.maxDegree G), V.ofNat (Spec.minDegree G), V.ofNat (Spec.maxIndegree G), V.ofNat (Spec.minIndegree G),
+       V.ofNat (Spec.maxOutdegree G), V.ofNat (Spec.minOutdegree G)]
+    model := [V.ofNat q.size, oNats q.sinks, V.ofNats q.sources, oNats q.indegreeSequence,
+         oNats q.outdegreeSequence, oPairs q.semidegreeSequence, oNat q.maxDegree, oNat q.minDegree,
+         oNat q.maxIndegree, oNat q.minIndegree, oNat q.maxOutdegree, oNat q.minOutdegree] }
+
+def partDegseq (m : Inst) (ob : Obs) (t : Nat) : Part :=
+  { names := ["degree_sequence"], want := [V.ofNats (Spec.degreeSequence ob.G)],
+    model := [oNats (m.core.degreeSequence t)], tags := [s!"threads={min t 17}"] }
+
+def vertexFields : String := "(fields: outN inN indeg outdeg deg sink source isolated pendant outNW)"
+
+def vertexModel (m : Inst) (u : Nat) : V :=
+  let q := m.core
+  .l [oNats (q.outNeighbors u), V.ofNats (q.inNeighbors u), oNat (q.indegree u), oNat (q.outdegree u),
+      oNat (q.degree u), oBool (q.isSink u), V.ofBool (q.isSource u), oBool (q.isIsolated u), oBool (q.isPendant u),
+      if m.weighted then (match m.outNW u with | none => panicV | some l => wPairs l) else .a "na"]
+
+def vertexSpec (ob : Obs) (u : Nat) (observedRec : V) : V :=
+  let G := ob.G
+  if G.verts.contains u then
+    .l [V.ofNats (Spec.outNeighbors G u), V.ofNats (Spec.inNeighbors G u), V.ofNat (Spec.indegree G u),
+        V.ofNat (Spec.outdegree G u), V.ofNat (Spec.degree G u), V.ofBool (Spec.isSink G u), V.ofBool (Spec.isSource G u),
+        V.ofBool (Spec.isIsolated G u), V.ofBool (Spec.isPendant G u),
+        if ob.weighted || observedRec.list?.bind (·[9]?) != some (.a "na") then wPairs (Spec.outNeighborsWeighted G u) else .a "na"]
+  else observedRec   -- outside V the property makes no demand on these queries
+
+/-- `observedRecs`: the implementation's records (copied for ids outside `V`). -/
+def partVertex (m : Inst) (ob : Obs) (ids : List Nat) (observedRecs : V) : Part :=
+  let recs := observedRecs.list?.getD []
+  let wantRecs :=
+    if recs.length == ids.length then (ids.zip recs).map (fun p => vertexSpec ob p.1 p.2)
+    else ids.map (fun u => vertexSpec ob u (.a "missing"))
+  let nPanic := recs.filter (fun r => r.list?.bind (·[2]?) == some panicV) |>.length
+  { names := ["vertex-records " ++ vertexFields], want := [.l wantRecs], model := [.l (ids.map (vertexModel m))],
+    tags := [if nPanic > 0 then "with-outside-ids" else "inside-only"] }
+
+def partPairs (m : Inst) (ob : Obs) (ids : List Nat) : Part :=
+  let G := ob.G
+  let prs := ids.flatMap (fun u => ids.map (fun v => (u, v)))
+  let anyEdge := prs.any (fun p => Spec.hasEdge G p.1 p.2)
+  { names := ["has_arc", "has_edge", "arc_weight"]
+    want := [.l (prs.map (fun p => b01 (Spec.hasArc G p.1 p.2))), .l (prs.map (fun p => b01 (Spec.hasEdge G p.1 p.2))),
+       .l (if m.weighted then prs.map (fun p => oInt (Spec.arcWeight G p.1 p.2)) else [])]
+    model := [.l (prs.map (fun p => b01 (m.core.hasArc p.1 p.2))), .l (prs.map (fun p => b01 (m.core.hasEdge p.1 p.2))),
+         .l (if m.weighted then prs.map (fun p => oInt (m.arcWeight p.1 p.2)) else [])]
+    tags := [if anyEdge then "some-edge" else "no-edge"] }
+
+def partWalks (m : Inst) (ob : Obs) (ws : List (List Nat)) : Part :=
+  let nTrue := (ws.filter (fun w => Spec.hasWalk ob.G w)).length
+  let nLong := (ws.filter (fun w => Spec.hasWalk ob.G w && w.length ≥ 3)).length
+  { names := ["has_walk"], want := [.l (ws.map (fun w => b01 (Spec.hasWalk ob.G w)))],
+    model := [.l (ws.map (fun w => b01 (m.core.hasWalk w)))]
+    tags := [if nTrue = 0 then "walks-all-false" else if 3 * nTrue ≥ ws.length then "walks-true>=1/3" else "walks-true<1/3",
+             if nLong > 0 then "true-walk-len>=3" else "no-long-true-walk"] }
+
+/-- `remove_arc` is total: ids outside `V` answer `false` and change nothing. -/
+def partRemove (m : Inst) (ob : Obs) (ps : List (Nat × Nat)) : Part :=
+  { names := ["remove_arc"]
+    want := [.l (ps.map (fun p => let a := Spec.hasArc ob.G p.1 p.2; .l [b01 a, b01 (!a)]))]
+    model := [.l (ps.map (fun p => let r := m.remove p.1 p.2; .l [b01 r.1, b01 r.2]))] }
+
+/-- Element-wise report: for list-valued outputs name the first differing element. -/
+def explain (name : String) (o w : V) : String :=
+  match o, w with
+  | .l os, .l ws =>
+    match firstDiff os ws with
+    | some (k, o', w') =>
+      match o', w' with
+      | .l os', .l ws' =>
+        match firstDiff os' ws' with
+        | some (j, o'', w'') => s!"{name}[{k}][{j}]: implementation {short o''} definition-from-own-arcs {short w''}"
+        | none => s!"{name}[{k}] differs"
+      | _, _ => s!"{name}[{k}]: implementation {short o'} definition-from-own-arcs {short w'}"
+    | none => s!"{name} differs"
+  | _, _ => s!"{name}: implementation {short o} definition-from-own-arcs {short w}"
+
+/-- Shared tail of every handler: `observed = obs :: parts ++ [unchanged]`. -/
+def finish (d : GDesc) (obsV : V) (ob : Obs) (observed : List V) (parts : Option (Inst → List Part)) : Verdict :=
+  match mkInst d, parts with
+  | some m, some mk =>
+    let ps := mk m
+    let names := ["obs"] ++ ps.flatMap (·.names) ++ ["unchanged (queries never change the digraph)"]
+    let model := [m.obs] ++ ps.flatMap (·.model) ++ [V.ofBool true]
+    let want := [obsV] ++ ps.flatMap (·.want) ++ [V.ofBool true]
+    let propFail := (firstDiff observed want).map (fun (i, o, w) => explain (names[i]?.getD (toString i)) o w)
+    classify observed model propFail (nt := ob.nverts ≥ 2 && ob.narcs ≥ 1) (commonTags d ob ++ ps.flatMap (·.tags))
+  | _, _ =>
+    -- the model says: building this description panics
+    classify observed [panicV] none (nt := false) (commonTags d ob)
+
+def parseWalks (v : V) : Option (List (List Nat)) := V.listOf? (V.listOf? V.nat?) v
+def parsePairs (v : V) : Option (List (Nat × Nat)) := V.listOf? (V.pair? V.nat? V.nat?) v
+def parseIds (v : V) : Option (List Nat) := V.listOf? V.nat? v
+
+def hGlobal : Handler := fun _ args observed =>
+  match args, observed with
+  | [dv], obsV :: _ => do
+    let d ← GDesc.parse dv
+    let ob ← parseObs obsV
+    pure (finish d obsV ob observed (some fun m => [partGlobal m ob]))
+  | _, _ => none
+
+/-- threaded for AdjacencyList: the model is called with the observed `t` -/
+def hDegseq : Handler := fun t args observed =>
+  match args, observed with
+  | [dv], obsV :: _ => do
+    let d ← GDesc.parse dv
+    let ob ← parseObs obsV
+    pure (finish d obsV ob observed (some fun m => [partDegseq m ob t]))
+  | _, _ => none
+
+def hVertex : Handler := fun _ args observed =>
+  match args, observed with
+  | [dv, idsV], [obsV, recs, _] => do
+    let d ← GDesc.parse dv
+    let ids ← parseIds idsV
+    let ob ← parseObs obsV
+    pure (finish d obsV ob observed (some fun m => [partVertex m ob ids recs]))
+  | _, _ => none
+
+def hPairs : Handler := fun _ args observed =>
+  match args, observed with
+  | [dv, idsV], obsV :: _ => do
+    let d ← GDesc.parse dv
+    let ids ← parseIds idsV
+    let ob ← parseObs obsV
+    pure (finish d obsV ob observed (some fun m => [partPairs m ob ids]))
+  | _, _ => none
+
+def hWalks : Handler := fun _ args observed =>
+  match args, observed with
+  | [dv, wsV], obsV :: _ => do
+    let d ← GDesc.parse dv
+    let ws ← parseWalks wsV
+    let ob ← parseObs obsV
+    pure (finish d obsV ob observed (some fun m => [partWalks m ob ws]))
+  | _, _ => none
+
+def hRemove : Handler := fun _ args observed =>
+  match args, observed with
+  | [dv, psV], obsV :: _ => do
+    let d ← GDesc.parse dv
+    let ps ← parsePairs psV
+    let ob ← parseObs obsV
+    pure (finish d obsV ob observed (some fun m => [partRemove m ob ps]))
+  | _, _ => none
+
+/-- `q_all <desc> [vertex ids] [pair ids] [walks] [removes]`: every part on one line
+(`obs global… degseq records has_arc has_edge arc_weight has_walk remove_arc unchanged`). -/
+def hAll : Handler := fun t args observed =>
+  match args, observed with
+  | [dv, vidsV, pidsV, wsV, psV], obsV :: rest => do
+    let d ← GDesc.parse dv
+    let vids ← parseIds vidsV
+    let pids ← parseIds pidsV
+    let ws ← parseWalks wsV
+    let ps ← parsePairs psV
+    let ob ← parseObs obsV
+    let recs := rest[13]?.getD (.l [])
+    pure (finish d obsV ob observed (some fun m =>
+      [partGlobal m ob, partDegseq m ob t, partVertex m ob vids recs, partPairs m ob pids, partWalks m ob ws, partRemove m ob ps]))
+  | _, _ => none
+
+def handlers : List (String × Handler) :=
+  [("q_global", hGlobal), ("q_degseq", hDegseq), ("q_vertex", hVertex), ("q_pairs", hPairs),
+   ("q_walks", hWalks), ("q_remove", hRemove), ("q_all", hAll)]
 
 end GraafVerif.Driver.H02
